@@ -4,8 +4,8 @@ from ..core import Check
 
 LEAVES = [
     ('str', 'a'), ('str', 'b'), ('str', 'ab'), ('str', ''), ('stri', 'a'),
-    ('re', 'a+'), ('re', 'b?'), ('ref', 'Rab'), ('ref', 'Ra'), ('fail',), ('back', 1),
-]
+    ('re', 'a+'), ('re', 'b?'), ('ref', 'Rab'), ('re', '(?!b)a*'), ('fail',), ('back', 1),
+]       # /(?!b)a*/ matches the empty string yet can fail
 SMALL_LEAVES = [('str', 'a'), ('str', 'ab'), ('re', 'b?'), ('ref', 'Rab'), ('back', 1)]
 TINY_LEAVES = [('str', 'a'), ('str', 'ab')]
 LITERAL_FORMS = [(k, v) for k in ('str', 'stri', 're', 'rei') for v in ('a', 'A', 'ab')]
